@@ -8,7 +8,8 @@
 //!        counters meta data records 0..3 = (state, type id, key), and (ev = 1) an ON_ERROR event
 //!        for correlation id `evid` with code `evcode` transmitted before the cycle
 //!   A <kind> <now>        add_publication / add_exclusive_publication / add_subscription / add_counter /
-//!                         add_destination (kind 0..4) at clock `now`
+//!                         add_destination (kind 0..4) / remove_destination / add_rcv_destination / remove_rcv_destination
+//!                         (kinds 5..7: destination requests like kind 4) at clock `now`
 //!   F <kind> <id> <now>   find_publication / find_exclusive_publication / find_subscription / find_counter /
 //!                         find_destination_response; kind 1 goes through the hook
 //!                         ClientConductor::find_exclusive_publication_for_verif (hooks/cond-find-exclusive.diff) and is
@@ -117,6 +118,9 @@ fn run_case(line: &str) -> String {
                         2 => g.add_subscription(ch, 10, Box::new(|_i: &aeron_rs::image::Image| {}), Box::new(|_i: &aeron_rs::image::Image| {})),
                         3 => g.add_counter(102, &[1, 2, 3], "lbl"),
                         4 => g.add_destination(1, ch),
+                        5 => g.remove_destination(1, ch),
+                        6 => g.add_rcv_destination(1, ch),
+                        7 => g.remove_rcv_destination(1, ch),
                         _ => panic!("kind"),
                     }
                 });
